@@ -2,7 +2,8 @@
 
 Proof: Poly/Props/C33.lean (for every hash function and every history: an approval is applied only while its
 request is pending; the applied approval removes the request; a request that is not pending stays so until a
-transaction creates it; hence between two applications there is a fresh request). Tie: correspondence streams
+transaction creates it; hence between two applications there is a fresh request). Tie: translator extract/govkeys (deleted vs stored key prefixes, theorem source_deletes_the_stored_request_key) and
+correspondence streams `gov-pool`, `gov-admission`,
 `gov-approvals` (every approve method, N = 1..13, second and third approval rounds after the action was applied)
 and `gov-registry` (side-chain request/approve interleavings); the harness evaluates the property on the real
 handlers: an action applied without a fresh request, or a request record still stored after its approval.
